@@ -18,6 +18,7 @@ import (
 	"fmt"
 	"io"
 	"strings"
+	"sync"
 	"time"
 
 	"mellium.im/xmlstream"
@@ -61,6 +62,40 @@ type Prog struct {
 	Close bool
 	// Deadline: the handler first calls SetCloseDeadline with a time in the "future" or the "past"
 	Deadline string
+	// Mut: the handler first edits the *xml.StartElement it was handed in place (handlers are
+	// given a pointer into the serve loop's own variable): 1 = every unqualified type attribute
+	// becomes "result", 2 = the name loses its namespace, 3 = every unqualified id attribute
+	// becomes "mutated", 4 = the local name becomes "message", 5 = all attributes are dropped,
+	// 6 = type becomes "error" and the name loses its namespace
+	Mut int
+}
+
+// MutMax is the largest value of Prog.Mut.
+const MutMax = 6
+
+func mutate(start *xml.StartElement, m int) {
+	set := func(l, v string) {
+		for i := range start.Attr {
+			if start.Attr[i].Name.Local == l && start.Attr[i].Name.Space == "" {
+				start.Attr[i].Value = v
+			}
+		}
+	}
+	switch m {
+	case 1:
+		set("type", "result")
+	case 2:
+		start.Name.Space = ""
+	case 3:
+		set("id", "mutated")
+	case 4:
+		start.Name.Local = "message"
+	case 5:
+		start.Attr = nil
+	case 6:
+		set("type", "error")
+		start.Name.Space = ""
+	}
 }
 
 func (p Prog) Enc() string {
@@ -73,6 +108,9 @@ func (p Prog) Enc() string {
 		f = append(f, "df")
 	case "past":
 		f = append(f, "dp")
+	}
+	if p.Mut != 0 {
+		f = append(f, fmt.Sprintf("m%d", p.Mut))
 	}
 	for _, o := range p.Ops {
 		switch {
@@ -279,7 +317,9 @@ type rwPair struct {
 
 // headerNegotiator consumes the stream header through the session's own
 // decoder and declares the session ready.
-func headerNegotiator(ns string) xmpp.Negotiator {
+func headerNegotiator(ns string) xmpp.Negotiator { return headerNegotiatorOpt(ns, Opts{FailAfter: -1}) }
+
+func headerNegotiatorOpt(ns string, opt Opts) xmpp.Negotiator {
 	return func(ctx context.Context, in, out *stream.Info, s *xmpp.Session, data interface{}) (xmpp.SessionState, io.ReadWriter, interface{}, error) {
 		in.XMLNS, out.XMLNS = ns, ns
 		in.Version, out.Version = stream.DefaultVersion, stream.DefaultVersion
@@ -292,6 +332,16 @@ func headerNegotiator(ns string) xmpp.Negotiator {
 		}
 		if st, ok := tok.(xml.StartElement); !ok || st.Name.Local != "stream" {
 			return 0, nil, nil, fmt.Errorf("verif: expected stream header, got %T", tok)
+		}
+		switch opt.Rebind {
+		case "update":
+			// what resource binding does with the address the server assigned
+			if !s.UpdateAddr(opt.NewAddr) {
+				return 0, nil, nil, errors.New("verif: UpdateAddr refused before Ready")
+			}
+		case "header":
+			// what the stock negotiator does with the peer's stream header (`*in = newIn`)
+			in.To = opt.NewAddr
 		}
 		return xmpp.Ready, nil, nil, nil
 	}
@@ -311,13 +361,103 @@ func Serve(ns string, local, remote jid.JID, body []byte, progs []Prog, mk func(
 // whatever the hook made the session write is not part of Result.Out.  The
 // function the hook returns (if any) runs after Serve returned.
 func ServeHook(ns string, local, remote jid.JID, body []byte, progs []Prog, mk func(rec xmpp.Handler) xmpp.Handler, before func(s *xmpp.Session, out *common.SafeBuffer) func()) (res Result) {
+	return ServeOpt(Opts{FailAfter: -1}, ns, local, remote, body, progs, mk, before)
+}
+
+// ErrWriteFault is what the connection of a session with Opts.FailAfter >= 0 returns from
+// Write once the fault is reached.
+var ErrWriteFault = errors.New("verif: connection refused the write")
+
+// Opts are the dimensions of a serve case beyond input and handler programs.
+type Opts struct {
+	// Rebind: the session's local address changes during negotiation, after NewSession was
+	// given `local`: "update" = Session.UpdateAddr (resource binding), "header" = the
+	// negotiator replaces the input stream's To (the peer's stream header names another
+	// address); "" = no change
+	Rebind string
+	// NewAddr is the address the session ends up with when Rebind is set
+	NewAddr jid.JID
+	// FailAfter: the connection accepts that many Write calls after Serve started and refuses
+	// every later one with ErrWriteFault; -1 = never fails
+	FailAfter int
+	// FailOnce: only that one Write call is refused, later ones are accepted again
+	FailOnce bool
+}
+
+// Enc renders the options for the replay lines ("-" = defaults).
+func (o Opts) Enc() string {
+	var f []string
+	if o.Rebind != "" {
+		f = append(f, "rebind="+o.Rebind+"="+fmt.Sprintf("%x", o.NewAddr.String()))
+	}
+	if o.FailAfter >= 0 {
+		f = append(f, fmt.Sprintf("failafter=%d", o.FailAfter))
+	}
+	if o.FailOnce {
+		f = append(f, "failonce")
+	}
+	return common.Join(f, ",")
+}
+
+// DecOpts is the inverse of Enc.
+func DecOpts(s string) Opts {
+	o := Opts{FailAfter: -1}
+	if s == "-" {
+		return o
+	}
+	for _, f := range strings.Split(s, ",") {
+		p := strings.Split(f, "=")
+		switch {
+		case p[0] == "rebind" && len(p) == 3:
+			o.Rebind = p[1]
+			if a, err := unhexF(p[2]); err == nil {
+				if j, err := jid.Parse(a); err == nil {
+					o.NewAddr = j
+				}
+			}
+		case p[0] == "failonce":
+			o.FailOnce = true
+		case p[0] == "failafter" && len(p) == 2:
+			fmt.Sscanf(p[1], "%d", &o.FailAfter)
+		}
+	}
+	return o
+}
+
+// faultWriter passes writes through until it is armed and `left` writes have been accepted.
+type faultWriter struct {
+	w     io.Writer
+	mu    sync.Mutex
+	armed bool
+	once  bool
+	left  int
+}
+
+func (f *faultWriter) Write(p []byte) (int, error) {
+	f.mu.Lock()
+	defer f.mu.Unlock()
+	if f.armed {
+		if f.left == 0 || (f.left < 0 && !f.once) {
+			f.left = -1
+			return 0, ErrWriteFault
+		}
+		if f.left > 0 {
+			f.left--
+		}
+	}
+	return f.w.Write(p)
+}
+
+// ServeOpt is ServeHook with the further dimensions of Opts.
+func ServeOpt(opt Opts, ns string, local, remote jid.JID, body []byte, progs []Prog, mk func(rec xmpp.Handler) xmpp.Handler, before func(s *xmpp.Session, out *common.SafeBuffer) func()) (res Result) {
 	in := io.MultiReader(strings.NewReader(Header(ns)), bytes.NewReader(body))
 	out := &common.SafeBuffer{}
 	var state xmpp.SessionState
 	if ns == NSServer {
 		state |= xmpp.S2S
 	}
-	s, err := xmpp.NewSession(context.Background(), remote, local, rwPair{in, out}, state, headerNegotiator(ns))
+	fw := &faultWriter{w: out, left: opt.FailAfter, once: opt.FailOnce}
+	s, err := xmpp.NewSession(context.Background(), remote, local, rwPair{in, fw}, state, headerNegotiatorOpt(ns, opt))
 	if err != nil {
 		res.Err = fmt.Errorf("verif: session setup: %w", err)
 		return res
@@ -340,6 +480,9 @@ func ServeHook(ns string, local, remote jid.JID, body []byte, progs []Prog, mk f
 		case "past":
 			_ = s.SetCloseDeadline(time.Unix(1, 0))
 		}
+		if p.Mut != 0 {
+			mutate(start, p.Mut)
+		}
 		return Exec(p, t, &res.Invs[len(res.Invs)-1])
 	})
 	var h xmpp.Handler = rec
@@ -351,6 +494,11 @@ func ServeHook(ns string, local, remote jid.JID, body []byte, progs []Prog, mk f
 		after = before(s, out)
 	}
 	skip := out.Len()
+	if opt.FailAfter >= 0 {
+		fw.mu.Lock()
+		fw.armed = true
+		fw.mu.Unlock()
+	}
 	done := common.WithTimeout(10*time.Second, func() {
 		res.Panic = common.Recover(func() { res.Err = s.Serve(h) })
 	})
@@ -373,6 +521,8 @@ func ErrClass(err error) string {
 	switch {
 	case err == nil:
 		return "clean"
+	case errors.Is(err, ErrWriteFault):
+		return "write-fault"
 	case errors.As(err, &se):
 		return "se:" + se.Err
 	case errors.As(err, &we):
